@@ -8,9 +8,11 @@ if ! git diff --quiet; then echo "mutcheck: /repo has uncommitted changes" >&2; 
 git apply "$P" || { echo "mutcheck: patch does not apply" >&2; exit 2; }
 trap 'git -C /repo checkout -- . ; git -C /repo clean -fdq teamserver >/dev/null 2>&1' EXIT
 cd /verif
+touch /tmp/mutcheck.stamp
 for prop in "$@"; do
   out=$(VERIF_EVIDENCE_DIR=/tmp/mut-evidence VERIF_SEED=${MUT_SEED:-1} ./check "$prop" "${MUT_TIER:-quick}" 2>&1)
   rc=$?
   echo "== $prop exit=$rc"
   echo "$out" | grep "^violation\|quick:\|thorough:\|trouble\|harness\|build" | cut -c1-260 | head -12
 done
+find /verif/replays -name '*.json' -newer /tmp/mutcheck.stamp -delete
